@@ -1,5 +1,6 @@
 import TaskModel.Load.MergeInvariant
 import TaskModel.Load.ReaderLemmas
+import TaskModel.Load.DefaultsLemmas
 import TaskModel.Load.RootRef
 import TaskModel.Load.PathLemmas
 import TaskModel.Load.VarsLemmas
@@ -336,6 +337,85 @@ theorem C08_attrs_merged (t1 t2 r : Table) (inc : Include) (itv : Vars) (h : mer
   exact ⟨t', h1, e1.trans (mergeOne_name _ _ _), e4.trans (mergeOne_attrs _ _ _), e8.trans (mergeOne_vars _ _ _),
     e7.trans (mergeOne_loc _ _ _), e5.trans (mergeOne_internal _ _ _), e6.trans (mergeOne_dir _ _ _)⟩
 
+/-! ## C08_file_defaults — the defaults an included Taskfile declares for its tasks go with them
+
+`method`, `run`, `silent` ("Default … for this Taskfile"), `set`, `shopt` at the top of a
+Taskfile.  Since the fix the merge gives them to the file's tasks (`Tasks.setDefaults`,
+model `Taskfile.bake` applied by `Graph.mergeIncs`); before it they were dropped and only the
+root file's applied. -/
+
+/-- **one merge**: the copy of a non-excluded task `t` of the included file carries `t`'s
+attributes with the file's defaults applied — `silent` or-ed, `method` / `run` where `t`
+declares none, `set` / `shopt` united — and every other attribute as it is. -/
+theorem C08_file_defaults (t1 t2 r : Taskfile) (inc : Include) (h : mergeTaskfile t1 t2.bake inc = .ok r)
+    (t : Task) (ht : t ∈ t2.tasks) (hx : t.name ∉ inc.excludes) :
+    ∃ t' ∈ r.tasks, t'.name = renName inc t.name ∧ t'.attrs = applyDefaults t2.defaults t.attrs
+      ∧ ∀ k, k ≠ posSilent → k ≠ posMethod → k ≠ posRun → k ≠ posSet → k ≠ posShopt → t'.attrs[k]? = t.attrs[k]? := by
+  obtain ⟨itv, hr⟩ := mergeTaskfile_tasks _ _ _ _ h
+  have hnew : mergeOne inc itv (bakeTask t2.defaults t) ∈ t1.tasks ++ newTasks inc itv t2.bake.tasks := by
+    apply List.mem_append_right
+    simp only [newTasks, List.mem_map, List.mem_filter, Taskfile.bake]
+    exact ⟨bakeTask t2.defaults t, ⟨⟨t, ht, rfl⟩, by rw [bakeTask_name]; exact decide_eq_true hx⟩, rfl⟩
+  obtain ⟨t', h1, h2, _⟩ := defaultAlias_mem inc t2.bake.tasks _ _ hnew
+  obtain ⟨e1, _, _, e4, _⟩ := core_fields h2
+  have hattrs : t'.attrs = applyDefaults t2.defaults t.attrs := e4.trans (mergeOne_attrs _ _ _)
+  refine ⟨t', hr ▸ h1, e1.trans (mergeOne_name _ _ _), hattrs, ?_⟩
+  intro k h0 h1' h2' h3 h4
+  rw [hattrs, applyDefaults_get]
+  cases t.attrs[k]? with
+  | none => rfl
+  | some a => simp [defaultAt_other _ k a h0 h1' h2' h3 h4]
+
+/-- `setDefaults` may be applied any number of times (the implementation does it in place,
+once per include statement naming the file): the second time changes nothing -/
+theorem C08_file_defaults_idempotent (tf : Taskfile) : tf.bake.bake = tf.bake := bake_idem tf
+
+/-- the full demand "as in its own file" for the five defaults: whatever the including files
+declare, a task runs with the value it has when its own file is the root -/
+def C08_defaults_full : Prop :=
+  ∀ (root c : Defaults) (i a : Nat), effectiveAt root i (defaultAt c i a) = effectiveAt c i a
+
+/-- … is false of the rule as it is (and of any rule in which the root's defaults mean
+anything for included tasks): root `method: timestamp`, included file and task silent on
+`method` — in its own file the task uses `checksum`, included it uses `timestamp`. -/
+theorem C08_defaults_full_counterexample : ¬ C08_defaults_full := by
+  intro h
+  have := h { method := 2 } {} posMethod 0
+  revert this
+  decide
+
+/-- **as in its own file wherever something is declared** — `method`, `run`: when the task or
+its own file declares the option, the merged task runs with exactly the own-file value;
+`silent`: silent in its own file ⇒ silent; `set`, `shopt`: every option it has in its own
+file it keeps; and when the root declares nothing, all five are the own-file values. -/
+theorem C08_defaults_partial (root c : Defaults) :
+    (∀ i a, (i = posMethod ∨ i = posRun) →
+        (a ≠ 0 ∨ (i = posMethod ∧ c.method ≠ 0) ∨ (i = posRun ∧ c.run ≠ 0)) →
+        effectiveAt root i (defaultAt c i a) = effectiveAt c i a)
+    ∧ (∀ a, effectiveAt c posSilent a ≠ 0 → effectiveAt root posSilent (defaultAt c posSilent a) ≠ 0)
+    ∧ (∀ a bit, (effectiveAt c posSet a).testBit bit = true → (effectiveAt root posSet (defaultAt c posSet a)).testBit bit = true)
+    ∧ (∀ a bit, (effectiveAt c posShopt a).testBit bit = true → (effectiveAt root posShopt (defaultAt c posShopt a)).testBit bit = true) :=
+  ⟨fun i a hi hd => effective_declared root c i a hi hd, effective_silent root c, effective_set root c, effective_shopt root c⟩
+
+/-- non-vacuity: file `run: once`, `silent: true`, `set: [pipefail]` (bit 1); a task without
+options of its own under a root with `run: when_changed` and `set: [errexit]` (bit 0): runs
+`once`, silent, with both shell options -/
+example : effective { run := 3, set := 1 } (applyDefaults { silent := 1, run := 2, set := 2 } (List.replicate 21 0))
+    = [1, 1, 2, 3, 0] := by decide
+
+/-- **the output style is the root's**: an include never replaces an output style the
+including file sets; it supplies one only where there is none -/
+theorem C08_output_kept (t1 t2 r : Taskfile) (inc : Include) (h : mergeTaskfile t1 t2 inc = .ok r) :
+    r.output = if t1.output = 0 then t2.output else t1.output := by
+  simp only [mergeTaskfile] at h
+  split at h
+  · cases h
+  · split at h
+    · cases h
+    · split at h
+      · cases h; rfl
+      · cases h
+
 /-- **sees the include's vars, runs in the include's directory**: for an advanced import the
 copy's `IncludeVars` answer every name of the include statement's `vars:` with that value
 (later levels override earlier ones), and its directory is the include's `dir` joined
@@ -476,7 +556,7 @@ theorem C08_loaded_is_acyclic (fm : FileMap) (root : Nat) (tf : Taskfile) (h : l
 
 /-- an error of any merge step is the result of the whole merge (no step is skipped) -/
 theorem C08_errors_propagate (src dst : Nat) (inc : Include) (rest : List Include) (st : Store) (t1 t2 : Taskfile)
-    (e : Err) (h1 : st.get src = some t1) (h2 : st.get dst = some t2) (h : mergeTaskfile t1 t2 inc = .error e) :
+    (e : Err) (h1 : st.get src = some t1) (h2 : st.get dst = some t2) (h : mergeTaskfile t1 t2.bake inc = .error e) :
     mergeIncs src dst (inc :: rest) st = .error e := by
   simp [mergeIncs, h1, h2, h]
 
